@@ -111,6 +111,22 @@ Theorem C11_parse_file_roundtrip_x : forall e,
 Proof. exact parse_file_roundtrip_x. Qed.
 Print Assumptions C11_parse_file_roundtrip_x.
 
+(* the same, stated on ELECTIONS: it is enough that no name, key or value of e contains a line-break character
+   (decidable: no_linebreak_election; the complement of the recorded finding c11_linebreak_in_string) *)
+Theorem C11_parse_file_roundtrip_election_x : forall e,
+  wf_election_x e = true -> no_linebreak_election e = true ->
+  parse_file_x (write_file_x e) = Some (canon_x e).
+Proof. exact parse_file_roundtrip_election_x. Qed.
+Print Assumptions C11_parse_file_roundtrip_election_x.
+
+(* the loop that is executed and extracted (ballots consed in front, reversed once at the end: linear in the
+   number of votes) computes what the loop of the proofs computes *)
+Theorem C11_parse_rows_spec : forall read_num read_nat rows,
+  parse_rows read_num read_nat rows
+  = obind (parse_loop read_num SecNone [] (mkPstate [] [] []) rows) (finish read_num read_nat).
+Proof. exact parse_rows_spec. Qed.
+Print Assumptions C11_parse_rows_spec.
+
 (* M roundtrip_idempotent.  The normal form of a well-formed election is again well-formed, and a SECOND
    write/parse round trip returns it unchanged up to the order of dictionary entries: [election_equiv]
    (Proofs/PabulibRT.v) demands Leibniz equality of budget, vote type, every limit, and -- project by project,
@@ -182,14 +198,14 @@ Definition C11_example : election :=
     (Some 1%nat) None None (Some 3%Q) None None None None.
 
 Example C11_nonvacuous :
-  wf_election_x C11_example = true
+  wf_election_x C11_example = true /\ no_linebreak_election C11_example = true
   /\ parse_file_x (write_file_x C11_example) = Some (canon_x C11_example)
   /\ rows_no_linebreak (write_rows_x C11_example)
   /\ option_map e_max_cost (parse_file_x (write_file_x C11_example)) = Some (Some 3%Q)
   /\ option_map e_min_len (parse_file_x (write_file_x C11_example)) = Some None
   /\ option_map (fun e => List.length (e_ballots e)) (parse_file_x (write_file_x C11_example)) = Some 3%nat.
 Proof.
-  split; [vm_compute; reflexivity|]. split; [vm_compute; reflexivity|].
+  split; [vm_compute; reflexivity|]. split; [vm_compute; reflexivity|]. split; [vm_compute; reflexivity|].
   split; [apply rows_no_linebreak_dec; vm_compute; reflexivity|].
   vm_compute. repeat split; reflexivity.
 Qed.
